@@ -430,9 +430,9 @@ def conc_replay(ctx, tag="conc", max_paths_quick=700, max_paths_thorough=8000):
     # (name, constants, cfg)
     CFG, CFG2 = "PublisherConc.cfg", "PublisherConc_twopub.cfg"
     if ctx.quick:
-        configs = [("a", conc_consts(2, 1, 2, ["all"], ["block", "poll", "coro"], 1, 1, 2, 0), CFG),
+        configs = [("a", conc_consts(2, 1, 2, ["all"], ["block", "coro"], 1, 1, 2, 0), CFG),
                    # finite window, a subscriber exactly that far behind: the retained element is trimmed under a reader
-                   ("r", conc_consts(1, 1, 1, ["all", "recent"], ["block", "poll", "coro"], 2, 2, 2, 1), CFG),
+                   ("r", conc_consts(1, 1, 1, ["all", "recent"], ["block", "poll", "coro"], 2, 2, 1, 1), CFG),
                    # two publishing threads against two blocked subscriber threads
                    ("p", conc_consts(2, 1, 2, ["all"], ["block"], 2, 1, 2, 0, copybusy=False, twopub=True), CFG2)]
     else:
